@@ -183,6 +183,50 @@ def route(run, d, rec_kinds=None):
     return TAG_PROPERTY.get(tag)
 
 
+# Functional projections are judged in pipeline order: a call runs traversal callbacks, then plans, then resolves
+# requests, then guards, lifecycle, history and reports.  A deviation at an early stage makes every later projection of
+# the same record differ as well, so for each record only the EARLIEST deviating stage raises a functional alarm
+# (monitors, which judge the observed data alone, always count for their own property).
+STAGES = [
+    ("C05", {"ev.traverse"}),
+    ("C06", {"ev.plan", "plans", "pex", "succ", "fail", "tasks", "hst", "sst"}),
+    ("C12", {"draws"}),
+    ("CFG", {"act", "isA", "res"}),
+    ("C04", {"ev.guard", "ev.guard.pending", "q", "req", "rem", "oreq"}),
+    ("C13", {"sub", "isR", "isS", "ev.guard.queries", "pe", "px", "pc", "ev.config"}),
+    ("C09", {"prev", "tt", "last", "ret"}),
+    ("C14", {"prev.payload", "ev.guard.payload", "ev.life.payload"}),
+    ("C16", {"strA", "hist"}),
+    ("C08", {"buf"}),
+]
+
+
+def is_monitor(tag):
+    return tag.startswith("mon.") or tag in ("badThis", "badOrigin", "asserts", "on")
+
+
+def primary(run, ds):
+    """(property, [diffs]) that raises the functional alarm for one record, or (None, [])"""
+    tags = {d["tag"] for d in ds}
+    call = ds[0].get("call", "")
+    for prop, stage_tags in STAGES:
+        hit = [d for d in ds if d["tag"] in stage_tags]
+        if not hit:
+            continue
+        if prop == "CFG" or call in ("load", "save", "replay", "replayenter", "copy"):
+            if call in ("load", "save"):
+                prop = "C08"
+            elif call in ("replay", "replayenter"):
+                prop = "C09"
+            elif call == "copy":
+                prop = "C10"
+            elif prop == "CFG":
+                f, l = ds[0]["file"], ds[0]["l"]
+                prop = "C04" if (f, l) in vetoed_records(run) else ("C12" if "ev.report" in tags or "draws" in tags else "C02")
+        return prop, hit
+    return None, []
+
+
 MC_PROPS = {"C01": ["WellFormedState", "WellFormedCallbacks"], "C02": ["P_Prescribed"], "C03": ["P_Balanced"],
             "C04": ["P_Guards"], "C05": ["P_Delivery"]}
 
@@ -249,7 +293,11 @@ def behavioural(pid, tier, out, extra_tags=(), accept=None):
             per_rec.setdefault((d["file"], d["l"]), []).append(d)
         for (f, l), ds in sorted(per_rec.items()):
             tags_here = {d["tag"] for d in ds}
-            mine = [d for d in ds if route(run, d) == pid or d["tag"] in extra_tags]
+            pprop, pdiffs = primary(run, ds)
+            mine = [d for d in ds if is_monitor(d["tag"]) and TAG_PROPERTY.get(d["tag"]) == pid]
+            if pprop == pid:
+                mine += pdiffs
+            mine += [d for d in ds if d["tag"] in extra_tags and d not in mine]
             if accept:
                 mine = [d for d in mine if accept(d, tags_here)]
             if not mine:
